@@ -10,6 +10,8 @@ import random
 import re
 
 KINDS = ('sub', 'member', 'func', 'mod', 'modproc', 'file')
+# tracked names inside the nested scopes: n1 / n2 = component or associate name, xn = a symbol declared later
+NESTNAME = {'td': {'n1': 'cn', 'n2': 'cf', 'xn': 'xn_extra'}, 'as': {'n1': 'y', 'n2': 'z', 'xn': 'xn_extra'}}
 PARENTED = {'member': True, 'modproc': True}
 REALNAME = {'n1': 'renamed_one', 'n2': 'renamed_two'}
 BODYSTMT = {'e1': 101, 'e2': 102}
@@ -39,7 +41,7 @@ def _sha(text):
 # ------------------------------------------------------------------------------------------------
 # generated sources
 
-def _body_lines(rng, ind, feat, use_type, calls=()):
+def _body_lines(rng, ind, feat, use_type, calls=(), nested=False):
     """Statements over the tracked variables v1 (integer) and v2 (real); the first one is an assignment."""
     pool = [
         ['v2 = v2*2.0 + real(v1)'],
@@ -64,6 +66,8 @@ def _body_lines(rng, ind, feat, use_type, calls=()):
         lines += rng.choice(pool)
     for m in must:
         lines += m
+    if nested:    # a nested scope in the body: ASSOCIATE block with the tracked associate names y, z
+        lines[2:2] = ['associate (y => v1, z => v2)', '  z = z + real(y)', '  ntv%cn = y', 'end associate']
     for c in calls:
         lines.insert(rng.randint(2, len(lines)), c)
     return [ind + l for l in lines]
@@ -74,8 +78,11 @@ def _only(feat):
     return f'use other_mod, only: {", ".join(names)}' if names else None
 
 
+NESTED_TYPE = ['integer, parameter :: nd = 4', 'type nt', '  integer :: cn', '  real :: cf(nd)', 'end type nt', 'type(nt) :: ntv']
+
+
 def _routine(rng, name, ind='', members=(), function=False, feat=None, use_type=False, calls=(),
-             host_tracked=False, host_import=False):
+             host_tracked=False, host_import=False, nested=False):
     """A subroutine/function declaring (unless host_tracked) the tracked variables v1, v2.
     feat: imported names used in the body; host_import: they are imported by the host, not here."""
     feat = feat or {}
@@ -97,12 +104,14 @@ def _routine(rng, name, ind='', members=(), function=False, feat=None, use_type=
     lines += decl
     if not host_tracked:
         lines += [f'{i2}integer :: v1', f'{i2}real :: v2']
+        if nested:   # a nested scope in the spec: derived type whose component shape uses a variable of the unit
+            lines += [i2 + l for l in NESTED_TYPE]
     lines += [f'{i2}integer :: i', f'{i2}real :: w(4)']
     if feat.get('imp_ot') and not host_import:
         lines.append(f'{i2}type(ot) :: otv')
     for j in range(rng.randint(0, 2)):
         lines.append(f'{i2}{rng.choice(["integer", "real", "logical"])} :: extra{j}')
-    lines += _body_lines(rng, i2, feat, use_type, calls) + tail
+    lines += _body_lines(rng, i2, feat, use_type, calls, nested) + tail
     if members:
         lines.append(f'{ind}contains')
         for m in members:
@@ -128,7 +137,7 @@ def _small_member(name, ind, kind, callee=None):
 FEATURES = ('imp_k', 'imp_ot', 'imp_proc', 'defs', 'members', 'typedef', 'cast')
 
 
-def gen_fixture(kind, rng, feat=None, seed=None):
+def gen_fixture(kind, rng, feat=None, seed=None, nested=True):
     """Return {'kind', 'main': source text, 'focus': name of the unit under test, 'feat', 'use_import'}.
     feat (all optional, drawn when None): imp_k / imp_ot / imp_proc = import a parameter / derived type /
     procedure from other_mod; defs = parse with definitions (enriched imports); members = contained
@@ -152,18 +161,18 @@ def gen_fixture(kind, rng, feat=None, seed=None):
     if kind in ('sub', 'file'):
         members = [_small_member('inner_a', '  ', 'shadow', callee='inner_b'), _small_member('inner_b', '  ', 'host')] \
             if feat['members'] else []
-        lines = _routine(rng, focus, members=members, feat=feat, calls=['call inner_a(v1)'] if members else [])
+        lines = _routine(rng, focus, members=members, feat=feat, calls=['call inner_a(v1)'] if members else [], nested=nested)
         if kind == 'file':
             mod = ['module file_mod', '  implicit none', '  integer :: counter', '  type ft', '    integer :: n', '  end type ft',
                    '  type(ft) :: fv', 'contains', '  subroutine bump(p)', '    integer, intent(inout) :: p',
                    '    p = p + counter + fv%n', '  end subroutine bump', 'end module file_mod', '']
             lines = mod + lines
     elif kind == 'func':
-        lines = _routine(rng, focus, function=True, feat=feat)
+        lines = _routine(rng, focus, function=True, feat=feat, nested=nested)
     elif kind == 'member':
         sib = ['  subroutine sibling(p)', '    integer, intent(inout) :: p', '    real :: t', f'    call {focus}(p, t)',
                '    p = p + v1', '  end subroutine sibling']
-        foc = _routine(rng, focus, ind='  ')
+        foc = _routine(rng, focus, ind='  ', nested=nested)
         lines = ['subroutine outer(b1)', '  implicit none', '  integer, intent(inout) :: b1', '  integer :: v1', '  real :: v2',
                  '  v1 = b1', '  call sibling(v1)', f'  call {focus}(v1, v2)', '  b1 = v1', 'contains'] + sib + foc + \
                 ['end subroutine outer']
@@ -176,11 +185,12 @@ def gen_fixture(kind, rng, feat=None, seed=None):
         if td:
             head += ['  type t', '    integer :: n', '    real :: r(3)', '  end type t']
         if kind == 'mod':
-            head += ['  integer :: v1', '  real :: v2'] + (['  type(t) :: tv'] if td else [])
+            head += ['  integer :: v1', '  real :: v2'] + (['  type(t) :: tv'] if td else []) + \
+                (['  ' + l for l in NESTED_TYPE] if nested else [])
             if feat['imp_ot']:
                 head.append('  type(ot) :: otv')
             a = _routine(rng, 'proc_a', ind='  ', feat=feat, use_type=td, calls=['call proc_b(v1, v2)'], host_tracked=True,
-                         host_import=True)
+                         host_import=True, nested=nested)
             b = ['  subroutine proc_b(p, q)', '    integer, intent(inout) :: p', '    real, intent(inout) :: q'] + \
                 (['    type(t) :: lt', '    lt%n = p', '    q = q + real(lt%n) + real(v1)'] if td else ['    q = q + real(p) + real(v1)']) + \
                 ['  end subroutine proc_b']
@@ -189,14 +199,14 @@ def gen_fixture(kind, rng, feat=None, seed=None):
             head += ['  integer :: hv', '  type(t) :: tv']
             sib = ['  subroutine sibling(p)', '    integer, intent(inout) :: p', '    real :: t', f'    call {focus}(p, t)',
                    '    hv = p', '  end subroutine sibling']
-            foc = _routine(rng, focus, ind='  ', use_type=True)
+            foc = _routine(rng, focus, ind='  ', use_type=True, nested=nested)
             lines = head + ['contains'] + sib + foc + ['end module host_mod']
     else:
         raise ValueError(kind)
     main = '\n'.join(lines) + '\n'
     if not feat['cast']:
         main = re.sub(r'\breal\(([a-z0-9_%]+)\)', r'\1', main)
-    return {'kind': kind, 'main': main, 'focus': focus, 'feat': feat, 'seed': seed,
+    return {'kind': kind, 'main': main, 'focus': focus, 'feat': feat, 'seed': seed, 'nested': nested,
             'use_import': feat['defs'] and (feat['imp_k'] or feat['imp_ot'] or feat['imp_proc'])}
 
 
@@ -225,6 +235,15 @@ class Copy:
     def bodyunit(self):
         f = self.focus
         return f.subroutines[0] if self.kind == 'mod' else f
+
+    def nested(self, nid):
+        """The tracked nested scope node: 'td' = derived type `nt` in the focus' spec, 'as' = first ASSOCIATE in the body."""
+        from loki.ir import FindNodes, Associate
+        if nid == 'td':
+            tds = [t for t in self.focus.typedefs if t.name.lower() == 'nt']
+            return tds[0] if tds else None
+        blocks = FindNodes(Associate).visit(self.bodyunit.body)
+        return blocks[0] if blocks else None
 
 
 def _is_sub(u):
@@ -355,6 +374,11 @@ def _symbols(node):
     if _MEMO['on']:
         _MEMO['sym'][id(node)] = (node, res)
     return res
+
+
+def _symbols_expr(expr):
+    """Typed symbols inside one expression (e.g. a shape dimension stored in a symbol-table entry)."""
+    return [v for v in _visitor('vars').visit(expr) if hasattr(v, 'scope')]
 
 
 def _unit_sections(u):
@@ -523,6 +547,37 @@ def _project(copy, other, parent, tok):
                 else:
                     tdef.add('foreign')
     view['tdef'] = sorted(tdef)
+    # nested scopes (TypeDef in the spec, ASSOCIATE in the body): table contents, types at the occurrences of the
+    # tracked nested names, parent link of the nested table, scope ownership of nested symbols incl. shape symbols
+    ntab, nocc, nparent, nown = {}, {}, set(), set()
+    my_tables = [(x.symbol_attrs, 'self') for x in my_units] + [(x.symbol_attrs, 'other') for x in their_units]
+    for nid, names in NESTNAME.items():
+        node = copy.nested(nid)
+        ntab[nid] = {t: 'none' for t in names}
+        nocc[nid] = {t: [] for t in names}
+        if node is None:
+            continue
+        for t, real in names.items():
+            a = node.symbol_attrs.lookup(real, recursive=False)
+            ntab[nid][t] = dtok(a.dtype) if a is not None else 'none'
+        rev = {v: k for k, v in names.items()}
+        seen = {t: set() for t in names}
+        syms = _symbols(node.body) if nid == 'td' else _symbols(node)
+        for s in syms:
+            if s.name.lower() in rev:
+                seen[rev[s.name.lower()]].add(dtok(s.type.dtype) if s.type is not None else 'untyped')
+                nown.add(_chain_tag(s.scope, mine, theirs, parent))
+        nocc[nid] = {t: sorted(v) for t, v in seen.items()}
+        ptab = node.symbol_attrs.parent
+        nparent.add(next((tag for tab, tag in my_tables if tab is ptab), 'none' if ptab is None else 'foreign'))
+        nparent.add(_chain_tag(node.parent, mine, theirs, parent) + '-node' if _chain_tag(node.parent, mine, theirs, parent) != 'self' else 'self')
+        for key in list(dict.keys(node.symbol_attrs)):
+            attrs = dict.__getitem__(node.symbol_attrs, key)
+            for dim in (getattr(attrs, 'shape', None) or ()):
+                for s in _symbols_expr(dim):
+                    nown.add(_chain_tag(s.scope, mine, theirs, parent))
+    view['ntab'], view['nocc'] = ntab, nocc
+    view['nparent'], view['nown'] = sorted(nparent), sorted(nown)
     text = fgen(copy.root) if copy.kind != 'file' else copy.root.to_fortran()
     view['text'] = _sha(text)
     view['ntext'] = _sha(re.sub(r'\b' + re.escape(f.name) + r'\b', '@', text, flags=re.I))
@@ -617,6 +672,13 @@ def apply_op(copy, e):
             f.variables += (sym.Variable(name=a1, type=SymbolAttributes(_dt(a2)), scope=f),)
         else:
             f.spec.append(ir.Comment(text=f'! {a1}'))
+    elif op in ('nretype', 'ndeclare'):
+        node = copy.nested(how)
+        real = NESTNAME[how][a1]
+        if op == 'nretype':
+            node.symbol_attrs[real] = node.symbol_attrs[real].clone(dtype=_dt(a2))
+        else:
+            node.symbol_attrs[real] = SymbolAttributes(_dt(a2))
     elif op == 'addmember':
         new = Subroutine(name=ADDED_MEMBER[a1], parent=f, spec=ir.Section(body=()), args=())
         new.body = ir.Section(body=(ir.Assignment(lhs=sym.Variable(name='v1', scope=new.get_symbol_scope('v1')), rhs=sym.IntLiteral(7)),))
